@@ -235,17 +235,17 @@ def snapshot(detector, label="end"):
 
 
 # --------------------------------------------------------------------------- observation probes
-def echo(detector, level=0.0, vec=(0.0, 0.0), name="x", other=0.0, tag=None):
+def echo(detector, level=0.0, vec=(0.0, 0.0), name="x", other=0.0, tag=None, opts=None):
     """Encode the argument values *actually received* into pixel / image so that a result identifies its run."""
     vec_t = tuple(float(v) for v in np.atleast_1d(np.asarray(vec, dtype=float)))
     qe = getattr(detector.characteristics, "_quantum_efficiency", None)
     temperature = getattr(detector.environment, "_temperature", None)
     rec = {"tag": tag, "level": float(level), "vec": list(vec_t), "name": str(name), "other": float(other),
-           "qe": qe, "temperature": temperature, "step": int(detector.pipeline_count)}
+           "qe": qe, "temperature": temperature, "step": int(detector.pipeline_count), "k": float((opts or {}).get("k", 0.0))}
     ECHO.append(rec)
     _log(dict(rec, kind="echo"))
     shp = detector.geometry.shape
-    val = encode(level, vec_t, other, qe, temperature) + name_code(name)
+    val = encode(level, vec_t, other, qe, temperature) + name_code(name) + nested_code((opts or {}).get("k", 0.0))
     detector.pixel.array = detector.pixel.array + np.full(shp, val)
     detector.signal.array = np.full(shp, float(level))
     detector.image.array = np.full(shp, int(abs(float(level)) * 16) % 60000, dtype=np.uint16)
@@ -257,6 +257,11 @@ NAME_CODES = {"x": 0, "b": 1, "a": 2, "zz": 3, "img_01.fits": 4, "Uniform": 5}
 def name_code(name) -> float:
     """Contribution of the text-valued argument to the encoding ('x', the default, contributes nothing)."""
     return 1e-7 * NAME_CODES.get(str(name), 9)
+
+
+def nested_code(k) -> float:
+    """Contribution of the entry 'k' of the mapping-valued argument 'opts' (0, the default, contributes nothing)."""
+    return 1e-6 * float(k)
 
 
 def encode(level, vec, other, qe, temperature):
